@@ -10,6 +10,8 @@ Five explorations on the real writers, one reference reader (pmc/ref/omkm.py):
   B1  reactor  deviation-bounded product over the ``write_yaml`` parameters x value kinds
                (omitted, int, float, numpy.int64, numpy.float64, string with unit, lists, arrays,
                generic dictionaries, phases given / omitted / dict, units given / None / dict);
+               every population of the phases argument: 0 .. 3 (thorough 4) gas phases x bulk phases x
+               interfaces, the list grouped by type / reversed / interleaved, or given as a dictionary;
                every call repeated, the caller's containers compared with a copy taken before.
   B2  thermo   deviation-bounded product over model / request coordinates; ``write_thermo_yaml``
                and ``write_cti`` of a freshly built model are read back with the reference readers
@@ -17,7 +19,8 @@ Five explorations on the real writers, one reference reader (pmc/ref/omkm.py):
                model must still say what the untouched copy says.
   C   forms    the same evaluation, deviation-bounded product over HOW the numbers, lists and
                options are handed over: numeric typing of species / rate / interaction / BEP /
-               phase inputs (Python int, float, NumPy scalars, integer arrays), order of the
+               phase inputs (Python int, float, NumPy scalars, integer arrays), compositions that
+               name elements with an explicit count of zero (int / float / NumPy zero), order of the
                NASA-9 intervals, boundary values of explicit rate inputs (0, 0.0, 1, None),
                unnamed BEPs, T / P typing, units as object / dict / None, an explicit empty list,
                another model written first in the same process, the same model written before.
@@ -62,7 +65,8 @@ ID = 'C07'
 RULE = ('phases: BFS over population histories, states de-duplicated on (species names per phase, '
         'which phases share one list object), non-trivial = reached by >= 1 operation with >= 2 '
         'phases non-empty or differing; reactor: base option set + every single and every pair of '
-        '(parameter, value kind) deviations (thorough: + triples on a sub-alphabet), non-trivial = the '
+        '(parameter, value kind) deviations (thorough: + triples on a sub-alphabet) + every population of the phases '
+        'argument (0-3, thorough 0-4, phases of each type; list grouped / reversed / interleaved, or dictionary), non-trivial = the '
         'deviation changes the expected file; thermo/CTI: default model + all single and pair '
         '(thorough: triple) coordinate deviations, each written by both writers, non-trivial = '
         'differs from the default in a coordinate that changes the file; forms: base model + every single '
@@ -117,6 +121,8 @@ PLANNED_TAGS = [
     'kind:str', 'kind:bool', 'kind:list', 'kind:list-np', 'kind:array', 'kind:list-str', 'kind:list-mixed', 'kind:list-mixed2', 'kind:objs',
     'kind:dict-extra', 'kind:dict-override', 'phases:list', 'phases:dict', 'phases:omitted',
     'units:none', 'units:obj', 'units:dict', 'reactor:second write',
+    'phases:three or more of one type (list)', 'phases:three or more of one type (dict)', 'phases:no phase of some type',
+    'phases:list not grouped by type',
     # B2
     'cls:Nasa', 'cls:Nasa9', 'cls:Shomate', 'ids:auto', 'ids:user', 'ids:mix', 'ids:clash',
     'ads:gas_first', 'ads:surf_first', 'rxn:stick', 'rxn:bep', 'rxn:ts', 'rxn:plain', 'Ea:given',
@@ -254,18 +260,43 @@ def _sp_casters(form):
     raise ValueError(form)
 
 
-def make_species(name, cls, phase_as_name=True, phase=None, form='plain', n9='asc', row=None, k=None):
+# which elements a composition dictionary names (family "boundary values": an explicit count of zero)
+#   present   only the elements the species contains (a hand-written dictionary)
+#   zeros     one entry per element of the mechanism, 0 where the species does not contain it (what read_excel makes
+#             of a sheet with one elements.X column per element): the gas phase names Ru, the bulk names H and N
+#   zero-one  ONE species of each phase names an element (Pt) that no species of the model contains, with count 0
+#   zero-own  every species names Pt with count 0 and nothing else it does not contain
+# The zero has the numeric type of the species' other counts (int, float, numpy.int64, numpy.float64: sp_form).
+EL_FORMS = ['present', 'zeros', 'zero-one', 'zero-own']
+MECH_EL = ['H', 'N', 'Ru', 'Ar']
+ZERO_ONE = ['N2', 'RU(B)', 'NH(T)', 'H(S)']            # one species per phase, neither the first nor the only candidate
+
+
+def _el_form(name, el, form, mech=MECH_EL):
+    """The composition dictionary of the species in the requested form (counts as in the table; zeros as int 0)."""
+    if form == 'present':
+        return dict(el)
+    if form == 'zeros':
+        return {e: el.get(e, 0) for e in list(mech) + [e for e in el if e not in mech]}
+    if form == 'zero-one':
+        return dict(el, Pt=0) if name in ZERO_ONE else dict(el)
+    if form == 'zero-own':
+        return dict({'Pt': 0}, **el)
+    raise ValueError(form)
+
+
+def make_species(name, cls, phase_as_name=True, phase=None, form='plain', n9='asc', row=None, k=None, el_form='present'):
     """One species object of the requested polynomial class from the table (or from an explicit table row
     (elements, phase name, cp/R, h/R, s/R, n_sites) with its own scale k: the generated model of the part "big")."""
     from pmutt.empirical.nasa import Nasa, Nasa9, SingleNasa9
     from pmutt.empirical.shomate import Shomate
     from pmutt import constants as c
     if name == 'Ar':
-        return Shomate(name='Ar', elements={'Ar': 1}, phase='gas' if phase_as_name else phase,
+        return Shomate(name='Ar', elements=_el_form('Ar', {'Ar': 1}, el_form), phase='gas' if phase_as_name else phase,
                        T_low=298., T_high=6000., a=np.array(AR_A))
     fT, fE, fS, fA = _sp_casters(form)
     el, ph, cp, h, s, ns = SPEC[name] if row is None else row
-    el = {k_: fE(v) for k_, v in el.items()}
+    el = {k_: fE(v) for k_, v in _el_form(name, el, el_form).items()}
     ns = None if ns is None else fS(ns)
     k = _k(name) if k is None else k
     ph = ph if phase_as_name else phase
@@ -346,7 +377,25 @@ PHASE_SETUPS = [
     ('direct-shared', 'nasa', [('IG', 'gas', ['H2']), ('IG', 'gas2', ['H2'])]),
     ('direct-shared', 'shomate', [('II', 'terrace', ['RU(T)', 'NH(T)']), ('II', 'step', ['RU(T)', 'NH(T)'])]),
     ('direct-shared', 'nasa', [('SS', 'bulk', []), ('II', 'terrace', []), ('IG', 'gas', ['N2'])]),
+    # compositions with explicit zero counts (pool class : element form : numeric form of the counts)
+    ('direct', 'nasa:zeros', [('IG', 'gas', None), ('II', 'terrace', ['RU(T)'])]),
+    ('direct', 'shomate:zero-one:pyfloat', [('II', 'terrace', None), ('SS', 'bulk', ['H2'])]),
+    ('organize', 'nasa9:zeros:np', [('IG', 'gas', ['H2']), ('II', 'terrace', None), ('SS', 'bulk', None)]),
 ]
+
+
+def _ph_pool_form(setup):
+    """'nasa' / 'nasa:zeros' / 'shomate:zero-one:np' -> (numeric form, element form) of the species of the pool."""
+    parts = setup['pool_cls'].split(':')
+    return (parts[2] if len(parts) > 2 else 'plain'), (parts[1] if len(parts) > 1 else 'present')
+
+
+def _ph_elements(setup, names):
+    """Reference: the union of the element names the compositions of the listed species carry (whatever the count)."""
+    els = set()
+    for n in names:
+        els |= set(_el_form(n, SPEC[n][0], _ph_pool_form(setup)[1]))
+    return els
 
 
 def _phase_kwargs(cls, name):
@@ -373,7 +422,7 @@ def _build_phases(setup, probe=None):
             for cls, name, init in specs:
                 if init and n in init:
                     home = name
-            sp = make_species(n, pcls)
+            sp = make_species(n, pcls.split(':')[0], form=_ph_pool_form(setup)[0], el_form=_ph_pool_form(setup)[1])
             sp.phase = home if via == 'organize' else None
             out[n] = sp
         return out
@@ -503,9 +552,7 @@ def _ph_listing(phases, refl, setup, op, ctx, case):
         names = [s.name for s in ph.species]
         ok &= ctx.equal('phase lists exactly its own species (reference: one list per phase)', names,
                         list(refl[p]), sig, case)
-        els = set()
-        for n in refl[p]:
-            els |= set(SPEC[n][0])
+        els = _ph_elements(setup, refl[p])
         ok &= ctx.equal('phase elements are the union over its own species', sorted(ph.elements), sorted(els),
                         sig, case)
     return bool(ok)
@@ -519,9 +566,7 @@ def _ph_emit(phases, refl, setup, op, ctx, case):
     for p, ph in enumerate(phases):
         sig = _ph_sig(setup, p, op)
         cls = setup['phases'][p][0]
-        els = set()
-        for n in refl[p]:
-            els |= set(SPEC[n][0])
+        els = _ph_elements(setup, refl[p])
         # CTI
         text = ph.to_cti(units=units) if cls != 'IG' else ph.to_cti()
         ctx.evals()
@@ -666,7 +711,7 @@ DEF_CFG = dict(gas='nasa', surf='nasa', sites=2, build='organize', ids='auto', a
                A='calc', li=2, li_names='auto', bep=1, units='ex', T=700., P=1., motz=False,
                ads_act='get_H_act', out='str', sections='all',
                # representation coordinates (part "forms"); the defaults are what B2 / A1 always used
-               sp_form='plain', n9='asc', stick='table', beta='table', li_form='list', bep_form='float',
+               sp_form='plain', el_form='present', n9='asc', stick='table', beta='table', li_form='list', bep_form='float',
                bep_names='user', ph_form='float', TP_form='float', units_arg='obj', li_arg='none',
                prior='none', rmotz='off', omit='none')
 COORDS = dict(sections=['all', 'no_phases', 'no_species'], gas=['nasa', 'nasa9', 'shomate'], surf=['nasa', 'shomate', 'nasa9'], sites=[2, 1],
@@ -865,7 +910,8 @@ def build_model(cfg, phases=True):
     m.species = []
     for n in names:
         cls = 'shomate' if n == 'Ar' else (cfg['gas'] if SPEC[n][1] == 'gas' else cfg['surf'])
-        m.species.append(make_species(n, cls, form=cfg.get('sp_form', 'plain'), n9=cfg.get('n9', 'asc')))
+        m.species.append(make_species(n, cls, form=cfg.get('sp_form', 'plain'), n9=cfg.get('n9', 'asc'),
+                                      el_form=cfg.get('el_form', 'present')))
     keys = list(BEP_TABLE)[:cfg['bep']]
     m.bep_keys = keys
     m.beps = [BEP(name=nm, **_bep_kwargs(BEP_TABLE[bn], cfg.get('bep_form', 'float'), j))
@@ -1869,7 +1915,7 @@ def _run_thermo(shard, ctx):
 # base of the product: a one-interface model built directly, every species NASA-9 (so that the interval
 # order is a single deviation), two BEPs, three interactions
 FORM_BASE = dict(build='direct', sites=1, gas='nasa9', surf='nasa9', bep=2, li=3)
-FORM_COORDS = dict(cls=['nasa9', 'nasa', 'shomate'], sp_form=SP_FORMS, n9=list(N9_ORDERS),
+FORM_COORDS = dict(cls=['nasa9', 'nasa', 'shomate'], sp_form=SP_FORMS, el_form=EL_FORMS, n9=list(N9_ORDERS),
                    Ea=EA_KINDS, A=A_KINDS, stick=STICK_KINDS, beta=BETA_KINDS,
                    li_form=LI_FORMS, bep_form=BEP_FORMS, bep_names=BEP_NAMES, ph_form=PH_FORMS,
                    li_arg=['none', 'empty'],
@@ -1881,12 +1927,12 @@ FORM_COORDS = dict(cls=['nasa9', 'nasa', 'shomate'], sp_form=SP_FORMS, n9=list(N
                    # request arguments left out of the call (documented defaults: 300 K, 1 bar, Motz-Wise off,
                    # get_H_act, pMuTT's default units) instead of given
                    omit=['none', 'motz', 'TP', 'ads', 'all'])
-FORM_FAMILY = dict(cls='S', sp_form='S', n9='S', Ea='R', A='R', stick='R', beta='R', li_form='L', bep_form='L',
+FORM_FAMILY = dict(cls='S', sp_form='S', el_form='S', n9='S', Ea='R', A='R', stick='R', beta='R', li_form='L', bep_form='L',
                    bep_names='L', ph_form='L', li_arg='L', TP_form='W', units_arg='W', prior='W', units='W', ids='W',
                    motz='W', rmotz='W', omit='W')
 FORM_CROSS = ('TP_form', 'units', 'units_arg')     # request coordinates paired with every coordinate in the quick tier
 FORM_ORDER = sorted(FORM_COORDS)
-FORM_TAGGED = ['sp_form', 'n9', 'Ea', 'A', 'stick', 'beta', 'li_form', 'bep_form', 'bep_names', 'ph_form', 'li_arg',
+FORM_TAGGED = ['sp_form', 'el_form', 'n9', 'Ea', 'A', 'stick', 'beta', 'li_form', 'bep_form', 'bep_names', 'ph_form', 'li_arg',
                'TP_form', 'units_arg', 'rmotz', 'omit']
 PLANNED_TAGS += ['%s:%s' % (k_, v_) for k_ in FORM_TAGGED for v_ in FORM_COORDS[k_] if v_ != DEF_CFG[k_]]
 PLANNED_TAGS += ['prior:other model written first', 'prior:same model written before', 'ids:desc',
@@ -1908,7 +1954,7 @@ def _form_deltas(tier):
             for vb in FORM_COORDS[b][1:]:
                 out.append({a: va, b: vb})
     if tier != 'quick':
-        for sub in (['Ea', 'A', 'stick', 'beta'], ['cls', 'sp_form', 'n9', 'units']):
+        for sub in (['Ea', 'A', 'stick', 'beta'], ['cls', 'sp_form', 'n9', 'units'], ['cls', 'sp_form', 'el_form']):
             out += _deviations({k: FORM_COORDS[k] for k in sub}, sorted(sub), 3)
     # the interval order only exists for NASA-9 species
     return [d for d in out if not ('n9' in d and d.get('cls', 'nasa9') != 'nasa9')]
@@ -2416,7 +2462,61 @@ R_DICTS = {
     'multi_input': (('simulation', 'multi_input'), {'dict-extra': {'tag': 'sweep'}, 'dict-override': {'temperature': [1, 2]}}),
     'misc': ((), {'dict-extra': {'title': 'run7', 'version': 2}}),
 }
-R_OTHER = {'phases': ['list', 'dict', 'omitted'], 'units': ['obj', 'none', 'dict']}
+# phases: 'list' / 'dict' are the base population (one gas, one bulk, two interfaces, grouped by type); the family
+# 'list:g,b,s:order' / 'dict:g,b,s' hands over g gas phases, b bulk phases and s interfaces (0 .. 3, thorough 0 .. 4, of
+# each type, so none / one / two / three and more of one type all occur), the list grouped by type, reversed or
+# interleaved (one of each type in turn).  One member of the family is paired with every other parameter.
+R_OTHER = {'phases': ['list', 'dict', 'list:3,3,1:interleaved', 'omitted'], 'units': ['obj', 'none', 'dict']}
+# name: (class, initial state or None) - four phases of each type
+PH_TABLE = {'gas': ('IdealGas', {'NH3': 1.0}), 'feed': ('IdealGas', {'H2': 0.75, 'N2': 0.25}),
+            'sweep': ('IdealGas', None), 'purge': ('IdealGas', {'Ar': 1.0}),
+            'bulk': ('StoichSolid', None), 'bulk2': ('StoichSolid', {'RU(B)': 1.0}),
+            'bulk3': ('StoichSolid', {'C(B)': 1.0}), 'bulk4': ('StoichSolid', None),
+            'terrace': ('InteractingInterface', {'RU(T)': 0.75, 'H(T)': 0.25}),
+            'step': ('InteractingInterface', {'RU(S)': 1.0}), 'kink': ('InteractingInterface', None),
+            'edge': ('InteractingInterface', {'RU(E)': 0.5, 'N(E)': 0.5})}
+PH_GROUP = {'IdealGas': 'gas', 'StoichSolid': 'bulk', 'InteractingInterface': 'surfaces'}
+PH_BY_GROUP = {g: [n for n, (c, _) in PH_TABLE.items() if PH_GROUP[c] == g] for g in ('gas', 'bulk', 'surfaces')}
+PH_ORDERS = ['grouped', 'reversed', 'interleaved']
+
+
+def _ph_counts(pk):
+    """'list' / 'dict' / 'list:g,b,s[:order]' / 'dict:g,b,s' -> (route, (g, b, s), order)."""
+    parts = pk.split(':')
+    counts = (1, 1, 2) if len(parts) == 1 else tuple(int(v) for v in parts[1].split(','))
+    return parts[0], counts, (parts[2] if len(parts) > 2 else 'grouped')
+
+
+def _ph_names(pk):
+    """Names of the phases of the kind, in the order in which the caller's list holds them."""
+    route, counts, order = _ph_counts(pk)
+    groups = [PH_BY_GROUP[g][:n] for g, n in zip(('gas', 'bulk', 'surfaces'), counts)]
+    if order == 'interleaved':
+        names = [grp[i] for i in range(max(counts)) for grp in groups if i < len(grp)]
+    else:
+        names = [n for grp in groups for n in grp]
+        if order == 'reversed':
+            names.reverse()
+    return names
+
+
+def _ph_origin(pk):
+    """Signature kind of a phases kind: the route, and whether three or more phases share a type."""
+    route, counts, order = _ph_counts(pk)
+    return ('phases', route + ('-3+' if max(counts) >= 3 else ''))
+
+
+def _ph_family(tier):
+    top = 3 if tier == 'quick' else 4
+    out = []
+    for counts in itertools.product(range(top + 1), repeat=3):
+        if not any(counts):
+            continue                          # an empty list: the statement does not say (empty section or none)
+        c = ','.join(str(v) for v in counts)
+        out += ['list:%s:%s' % (c, o) for o in PH_ORDERS]
+        out.append('dict:' + c)
+    # the base population and the member paired with every parameter are enumerated already
+    return [k for k in out if k != 'list:1,1,2:grouped' and k not in R_OTHER['phases']]
 R_BASE = dict(reactor_type='str', temperature_mode='str', V='float', T='int', P='float', cat_abyv='int',
               flow_rate='str-unit', end_time='int', transient='bool', stepping='str', init_step='float',
               atol='float', rtol='float', output_format='str', phases='list', units='obj')
@@ -2495,7 +2595,7 @@ def _r_put(tree, path, spec, keep=False):
     node[path[-1]] = spec
 
 
-def _r_objs():
+def _r_objs(pk='list'):
     """Objects for reactions_SA / species_SA / phases (built once per case)."""
     from pmutt.omkm import phase as omkm_phase
 
@@ -2503,12 +2603,15 @@ def _r_objs():
         def __init__(self, i):
             self.id = i
     sp = [make_species('H2', 'nasa'), make_species('N(T)', 'shomate')]
-    ph = [omkm_phase.IdealGas(name='gas', species=[], initial_state={'NH3': 1.0}),
-          omkm_phase.StoichSolid(name='bulk', species=[]),
-          omkm_phase.InteractingInterface(name='terrace', species=[], site_density=SDEN['terrace'],
-                                          initial_state={'RU(T)': 0.75, 'H(T)': 0.25}),
-          omkm_phase.InteractingInterface(name='step', species=[], site_density=SDEN['step'],
-                                          initial_state={'RU(S)': 1.0})]
+    ph = []
+    for name in (_ph_names(pk) if pk.split(':')[0] == 'list' else []):
+        cls, state = PH_TABLE[name]
+        kw = dict(name=name, species=[])
+        if state is not None:
+            kw['initial_state'] = dict(state)
+        if cls == 'InteractingInterface':
+            kw['site_density'] = SDEN.get(name, 7.5e-10)
+        ph.append(getattr(omkm_phase, cls)(**kw))
     return dict(rxn=[_R('r_0002'), _R('r_0005')], sp=sp, phases=ph)
 
 
@@ -2554,25 +2657,42 @@ def _reactor_call(sel, objs):
             prior = prior or {}
             prior[p] = content                     # the same dict object goes to both calls
     pk = sel.get('phases', 'omitted')
-    if pk == 'list':
+    route = pk.split(':')[0]
+    origin = _ph_origin(pk) if pk != 'omitted' else None
+    if route == 'list':
         kw['phases'] = objs['phases']
         groups = {'gas': [], 'bulk': [], 'surfaces': []}
         for ph in objs['phases']:
             g = {'IdealGas': 'gas', 'StoichSolid': 'bulk', 'InteractingInterface': 'surfaces'}[type(ph).__name__]
-            rec = {'name': ('str', ph.name, ('phases', pk))}
+            rec = {'name': ('str', ph.name, origin)}
             if ph.initial_state is not None:
-                rec['initial_state'] = ('state', dict(ph.initial_state), ('phases', pk))
-            groups[g].append(('map', rec, ('phases', pk)))
+                rec['initial_state'] = ('state', dict(ph.initial_state), origin)
+            groups[g].append(('map', rec, origin))
         for g, lst in groups.items():
             if not lst:
                 continue
-            spec = lst[0] if (len(lst) == 1 and g != 'surfaces') else ('list', lst, ('phases', pk))
+            spec = lst[0] if (len(lst) == 1 and g != 'surfaces') else ('list', lst, origin)
             _r_put(tree, ('phases', g), spec)
     elif pk == 'dict':
         kw['phases'] = copy.deepcopy(PH_DICT)
         for g, lst in PH_DICT.items():
-            specs = [('map', {k: ('str', v, ('phases', pk)) for k, v in d.items()}, ('phases', pk)) for d in lst]
-            spec = specs[0] if (len(specs) == 1 and g != 'surfaces') else ('list', specs, ('phases', pk))
+            specs = [('map', {k: ('str', v, origin) for k, v in d.items()}, origin) for d in lst]
+            spec = specs[0] if (len(specs) == 1 and g != 'surfaces') else ('list', specs, origin)
+            _r_put(tree, ('phases', g), spec)
+    elif route == 'dict':
+        # the caller groups the phases: {type: [{name, initial_state}, ...]}, types without a phase left out
+        given = {}
+        for name in _ph_names(pk):
+            cls, state = PH_TABLE[name]
+            d = {'name': name}
+            if state is not None:
+                d['initial_state'] = ', '.join('%s:%s' % (k, v) for k, v in state.items())
+            given.setdefault(PH_GROUP[cls], []).append(d)
+        kw['phases'] = copy.deepcopy(given)
+        for g, lst in given.items():
+            specs = [('map', {k: (('state', PH_TABLE[d['name']][1], origin) if k == 'initial_state' else
+                                  ('str', v, origin)) for k, v in d.items()}, origin) for d in lst]
+            spec = specs[0] if (len(specs) == 1 and g != 'surfaces') else ('list', specs, origin)
             _r_put(tree, ('phases', g), spec)
     return kw, tree, prior
 
@@ -2714,10 +2834,19 @@ def _reactor_eval(case, ctx):
             sel[p] = k
     _reset_defaults()
     try:
-        objs = _r_objs()
+        objs = _r_objs(sel.get('phases', 'list'))
         kw, tree, prior = _reactor_call(sel, objs)
         for p, k in sorted(sel.items()):
-            if p in ('phases', 'units'):
+            if p == 'phases':
+                route, counts, order = _ph_counts(k)
+                ctx.tag('phases:' + route)
+                if max(counts) >= 3:
+                    ctx.tag('phases:three or more of one type (%s)' % route)
+                if min(counts) == 0:
+                    ctx.tag('phases:no phase of some type')
+                if order != 'grouped':
+                    ctx.tag('phases:list not grouped by type')
+            elif p == 'units':
                 ctx.tag('%s:%s' % (p, k))
             else:
                 ctx.tag('kind:' + {'bool-false': 'bool', 'dict-reused': 'dict-extra'}.get(k, k))
@@ -2735,6 +2864,14 @@ def _reactor_eval(case, ctx):
             write_yaml(**first)
         plain = {k: copy.deepcopy(v) for k, v in kw.items() if isinstance(v, (list, dict, np.ndarray))
                  and k not in ('phases', 'reactions_SA', 'species_SA')}
+        # the caller's phases: the list still holds the same objects in the same order, each saying what it said;
+        # a dictionary of phases still holds what the caller put into it
+        ph_given = kw.get('phases')
+        ph_before = None
+        if isinstance(ph_given, list):
+            ph_before = (list(ph_given), [(ph.name, copy.deepcopy(ph.initial_state)) for ph in ph_given])
+        elif isinstance(ph_given, dict):
+            ph_before = copy.deepcopy(ph_given)
         out = tempfile.mkdtemp(prefix='c07_') if case.get('file') else None
         try:
             if out:
@@ -2753,6 +2890,12 @@ def _reactor_eval(case, ctx):
         sigc = dict(part='reactor', item="caller's containers",
                     units='none' if sel.get('units', 'omitted') in ('none', 'omitted') else 'given')
         changed = sorted(k for k, v in plain.items() if not _same_plain(v, kw[k]))
+        if isinstance(ph_given, list):
+            same = len(ph_given) == len(ph_before[0]) and all(a is b for a, b in zip(ph_given, ph_before[0])) and \
+                [(ph.name, ph.initial_state) for ph in ph_before[0]] == ph_before[1]
+            changed += [] if same else ['phases']
+        elif isinstance(ph_given, dict):
+            changed += [] if _same_plain(ph_given, ph_before) else ['phases']
         ctx.true(C_R_ALONE, not changed, sigc, case, changed, [])
         if not out:
             ctx.true(C_R_AGAIN, _strip_stamp(again) == _strip_stamp(text), dict(sigc, item='second call'), case,
@@ -2780,6 +2923,11 @@ def _reactor_deltas(tier):
     out = []
     for lv in (0, 1, 2):
         out += _deviations(coords, R_ORDER, lv)
+    # the family of phase populations (how many of each type, in which order, as list or dictionary), on its own
+    # and without a units argument
+    fam = _ph_family(tier)
+    out += [{'phases': k} for k in fam]
+    out += [{'phases': k, 'units': 'none'} for k in fam if k.startswith('list')]
     if tier == 'thorough':
         # triples over the sub-alphabet where the value kinds interact with the unit handling
         sub = {p: coords[p] for p in ('V', 'T', 'P', 'flow_rate', 'multi_P', 'multi_T', 'nodes', 'atol', 'reactor',
@@ -3066,6 +3214,8 @@ def bounds(tier):
         phases=dict(setups=len(PHASE_SETUPS), pool=POOL, ops='append/extend/remove/pop/clear/set/set-none per phase',
                     depth_2_phases=3 if q else 4, depth_3_phases=2 if q else 3),
         reactor=dict(parameters=len(R_ORDER), deviation_level='singles + all pairs' + ('' if q else ' + triples on 14 parameters'),
+                     phase_populations=dict(per_type='0-3' if q else '0-4', orders=PH_ORDERS, routes=['list', 'dict'],
+                                            kinds=len(_ph_family(tier))),
                      configurations=len(_reactor_deltas(tier))),
         thermo=dict(coordinates={k: COORDS[k] for k in COORD_ORDER}, deviation_level=2 if q else 3,
                     configurations=len(_thermo_deltas(tier)), writers=['write_thermo_yaml', 'write_cti'],
